@@ -68,24 +68,37 @@ def _is_nan(v):
   return isinstance(v, float) and v != v
 
 
-def same_value(a, b):
-  """Structural equality, NaN-aware, type-strict for bool vs int."""
-  if isinstance(a, (tuple, list)) and isinstance(b, (tuple, list)):
-    if type(a) is not type(b) or len(a) != len(b):
+def same_value(a, b, _stack=None):
+  """Structural equality, NaN-aware, type-strict for bool vs int. Cyclic containers
+  (`a += (a, 1)` on a list) are compared coinductively: a pair that is already being
+  compared further up counts as equal."""
+  if isinstance(a, (tuple, list, dict)) and isinstance(b, (tuple, list, dict)):
+    if _stack is None:
+      _stack = set()
+    key = (id(a), id(b))
+    if key in _stack:
+      return True
+    _stack.add(key)
+    try:
+      if isinstance(a, (tuple, list)) and isinstance(b, (tuple, list)):
+        if type(a) is not type(b) or len(a) != len(b):
+          return False
+        for p, q in zip(a, b):
+          if not same_value(p, q, _stack):
+            return False
+        return True
+      if isinstance(a, dict) and isinstance(b, dict):
+        if len(a) != len(b):
+          return False
+        for k in a:
+          if k not in b or not same_value(a[k], b[k], _stack):
+            return False
+        return True
       return False
-    for p, q in zip(a, b):
-      if not same_value(p, q):
-        return False
-    return True
-  if isinstance(a, dict) and isinstance(b, dict):
-    if len(a) != len(b):
-      return False
-    for k in a:
-      if k not in b or not same_value(a[k], b[k]):
-        return False
-    return True
+    finally:
+      _stack.discard(key)
   if isinstance(a, O) and isinstance(b, O):
-    return same_value((a.v, a.w), (b.v, b.w))
+    return same_value((a.v, a.w), (b.v, b.w), _stack)
   if _is_nan(a) and _is_nan(b):
     return True
   if isinstance(a, bool) != isinstance(b, bool):
